@@ -513,3 +513,229 @@ Theorem jrn2r_b_sound :
        Journey2r.jrn2r_b cf an s h = true -> Journey2.Jrn2 cf an s h.
 Proof. exact Journey2r.jrn2r_b_sound. Qed.
 Print Assumptions jrn2r_b_sound.
+
+(* ---- Journey2t ---- *)
+From CiwV.Inv Require Journey2t.
+
+Theorem scope2s_scope2t :
+  forall cf : State2.config,
+       Journey2s.scope2s cf = true ->
+       List.forallb Journey2t.noslot4_nc (State2.cf_nodes cf) = true ->
+       Journey2t.scope2t cf = true.
+Proof. exact Journey2t.scope2s_scope2t. Qed.
+Print Assumptions scope2s_scope2t.
+
+Theorem slotted_service_jrn2t :
+  forall cf : State2.config,
+       Journey2t.scope2t cf = true ->
+       forall (an : BinNums.Z -> option BinNums.Z) 
+         (h : list State2.rec) (j : BinNums.Z) (s s' : State2.sim),
+       Journey2s.Jst an h nil s ->
+       Journey2t.SlotIntX cf None s ->
+       Engine2.slotted_service cf j s = State2.Ok (tt, s') ->
+       Journey2s.Jst an h nil s' /\ Journey2t.SlotIntX cf None s'.
+Proof. exact Journey2t.slotted_service_jrn2t. Qed.
+Print Assumptions slotted_service_jrn2t.
+
+Theorem interrupt_service_other_SI :
+  forall (cf : State2.config) (fuel : nat) (j i pre : BinNums.Z)
+         (s s' : State2.sim),
+       BinInt.Z.eqb pre (BinNums.Zpos (BinNums.xO (BinNums.xO BinNums.xH))) =
+       false ->
+       Journey2.slot_of cf j = false ->
+       Journey2.Idx s ->
+       Journey2t.SlotIntX cf None s ->
+       Engine2.interrupt_service cf fuel j i pre s = State2.Ok (tt, s') ->
+       Journey2t.SlotIntX cf None s' /\ Journey2.Idx s'.
+Proof. exact Journey2t.interrupt_service_other_SI. Qed.
+Print Assumptions interrupt_service_other_SI.
+
+Theorem biis_SI :
+  forall (cf : State2.config) (j sid : BinNums.Z) (s s' : State2.sim),
+       Journey2.Idx s ->
+       Journey2t.SlotIntX cf None s ->
+       (forall (nd : State2.node) (i : BinNums.Z),
+        Journey2.nodeZ s j = Some nd ->
+        List.hd_error (State2.n_interrupted nd) = Some i ->
+        ~ Journey2t.Listed cf s i) ->
+       Engine2.begin_interrupted_individuals_service j sid s =
+       State2.Ok (tt, s') -> Journey2t.SlotIntX cf None s' /\ Journey2.Idx s'.
+Proof. exact Journey2t.biis_SI. Qed.
+Print Assumptions biis_SI.
+
+Theorem event_tail_pickT :
+  forall (cf : State2.config) (s1 s' : State2.sim),
+       Journey2.Idx s1 ->
+       Journey2t.SlotIntX cf None s1 ->
+       Engine2.bind (Engine2.gets State2.nodes)
+         (fun ns : list State2.node =>
+          Engine2.bind (Engine2.update_all cf (List.map State2.n_id ns))
+            (fun _ : unit => Engine2.find_next_active_node)) s1 =
+       State2.Ok (tt, s') -> Journey2t.PickT cf s'.
+Proof. exact Journey2t.event_tail_pickT. Qed.
+Print Assumptions event_tail_pickT.
+
+Theorem event_step_jrn2t_partial :
+  forall cf : State2.config,
+       Journey2t.scope2t cf = true ->
+       forall (an : BinNums.Z -> option BinNums.Z) 
+         (s s' : State2.sim) (h : list State2.rec),
+       Journey2t.Jrn2t cf an s h ->
+       Journey2t.slot_event_b s = true ->
+       Engine2.event_step cf s = State2.Ok (tt, s') ->
+       Journey2t.Jrn2t cf (Journey2.an_step s an) s' (h ++ State2.log s') /\
+       Journey2t.PickT cf s'.
+Proof. exact Journey2t.event_step_jrn2t_partial. Qed.
+Print Assumptions event_step_jrn2t_partial.
+
+Theorem run_slots_jrn2t_partial :
+  forall cf : State2.config,
+       Journey2t.scope2t cf = true ->
+       forall (ds : list State2.draws) (s : State2.sim) 
+         (h : list State2.rec) (an : BinNums.Z -> option BinNums.Z)
+         (s' : State2.sim) (h' : list State2.rec)
+         (an' : BinNums.Z -> option BinNums.Z),
+       Journey2t.Jrn2t cf an s h ->
+       Journey2t.slots_only cf s ds ->
+       Journey2.run_hist cf s h an ds = State2.Ok (s', h', an') ->
+       Journey2t.Jrn2t cf an' s' h' /\
+       Codec2.run_many cf s ds = State2.Ok s' /\
+       (exists t : list State2.rec, h' = (h ++ t)%list).
+Proof. exact Journey2t.run_slots_jrn2t_partial. Qed.
+Print Assumptions run_slots_jrn2t_partial.
+
+Theorem Jrn2t_means :
+  forall (cf : State2.config) (an : BinNums.Z -> option BinNums.Z)
+         (s : State2.sim) (h : list State2.rec),
+       Journey2t.Jrn2t cf an s h ->
+       (forall (i : BinNums.Z) (r : State2.rec) (l : list State2.rec),
+        Journey2.recs_of i h = (r :: l)%list -> an i = Some (State2.r_node r)) /\
+       (forall (i : BinNums.Z) (l1 : list State2.rec) 
+          (r1 r2 : State2.rec) (l2 : list State2.rec),
+        Journey2.recs_of i h = (l1 ++ r1 :: r2 :: l2)%list ->
+        Journey2.visit r2 /\
+        (Journey2.closing r1 /\
+         State2.r_dest r1 = Some (State2.r_node r2) /\
+         State2.r_exit r1 = State2.r_arr r2 \/
+         Journey2.cont r1 /\
+         State2.r_node r2 = State2.r_node r1 /\
+         State2.r_arr r2 = State2.r_arr r1)) /\
+       (forall r : State2.rec,
+        List.In r h ->
+        ~ Journey2.visit r ->
+        Journey2.recs_of (State2.r_id r) h = (r :: nil)%list) /\
+       (forall (k : nat) (nd : State2.node) (i : BinNums.Z),
+        List.nth_error (State2.nodes s) k = Some nd ->
+        List.In i (Engine2.all_individuals nd) ->
+        exists x : State2.ind,
+          Engine2.find_ind i (State2.inds s) = Some x /\
+          State2.i_node x =
+          Some (BinInt.Z.add (BinInt.Z.of_nat k) (BinNums.Zpos BinNums.xH)) /\
+          State2.i_nrec x = Prelude.zlen (Journey2.recs_of i h) /\
+          (Journey2.recs_of i h = nil /\
+           an i =
+           Some (BinInt.Z.add (BinInt.Z.of_nat k) (BinNums.Zpos BinNums.xH)) \/
+           (exists (l : list State2.rec) (r : State2.rec),
+              Journey2.recs_of i h = (l ++ r :: nil)%list /\
+              (Journey2.closing r /\
+               State2.r_dest r =
+               Some
+                 (BinInt.Z.add (BinInt.Z.of_nat k) (BinNums.Zpos BinNums.xH)) /\
+               State2.r_exit r = State2.i_arr x \/
+               Journey2.cont r /\
+               State2.r_node r =
+               BinInt.Z.add (BinInt.Z.of_nat k) (BinNums.Zpos BinNums.xH) /\
+               State2.r_arr r = State2.i_arr x))) /\
+          (forall (l1 : list State2.rec) (r : State2.rec)
+             (l2 : list State2.rec),
+           Journey2.recs_of i h = (l1 ++ r :: l2)%list ->
+           List.Forall Journey2.cont l2 ->
+           Journey2.closing r ->
+           State2.r_dest r =
+           Some (BinInt.Z.add (BinInt.Z.of_nat k) (BinNums.Zpos BinNums.xH)) /\
+           State2.r_exit r = State2.i_arr x /\
+           List.Forall
+             (fun r' : State2.rec =>
+              State2.r_node r' =
+              BinInt.Z.add (BinInt.Z.of_nat k) (BinNums.Zpos BinNums.xH) /\
+              State2.r_arr r' = State2.i_arr x) l2) /\
+          (List.Forall Journey2.cont (Journey2.recs_of i h) ->
+           an i =
+           Some (BinInt.Z.add (BinInt.Z.of_nat k) (BinNums.Zpos BinNums.xH)) /\
+           List.Forall
+             (fun r' : State2.rec =>
+              State2.r_node r' =
+              BinInt.Z.add (BinInt.Z.of_nat k) (BinNums.Zpos BinNums.xH) /\
+              State2.r_arr r' = State2.i_arr x) (Journey2.recs_of i h))) /\
+       (forall i : BinNums.Z,
+        BinInt.Z.le (BinNums.Zpos BinNums.xH) i /\
+        BinInt.Z.le i (State2.a_created (State2.arr s)) ->
+        List.In i (State2.exit_ids s) <->
+        (exists (l : list State2.rec) (r : State2.rec),
+           Journey2.recs_of i h = (l ++ r :: nil)%list /\
+           (State2.r_dest r = Some (BinNums.Zneg BinNums.xH) \/
+            State2.r_type r = BinNums.Zpos (BinNums.xI BinNums.xH) \/
+            State2.r_type r =
+            BinNums.Zpos (BinNums.xO (BinNums.xO BinNums.xH))))) /\
+       (forall r : State2.rec,
+        List.In r h ->
+        BinInt.Z.le (State2.r_id r) (State2.a_created (State2.arr s))).
+Proof. exact Journey2t.Jrn2t_means. Qed.
+Print Assumptions Jrn2t_means.
+
+Theorem Jrn2t_int_means :
+  forall (cf : State2.config) (an : BinNums.Z -> option BinNums.Z)
+         (s : State2.sim) (h : list State2.rec),
+       Journey2t.Jrn2t cf an s h ->
+       (forall (k : nat) (nd : State2.node),
+        List.nth_error (State2.nodes s) k = Some nd ->
+        Journey2.slot_of cf
+          (BinInt.Z.add (BinInt.Z.of_nat k) (BinNums.Zpos BinNums.xH)) = true ->
+        List.NoDup (State2.n_interrupted nd) /\
+        (forall i : BinNums.Z,
+         List.In i (State2.n_interrupted nd) ->
+         List.In i (Engine2.all_individuals nd) /\
+         (exists x : State2.ind,
+            Engine2.find_ind i (State2.inds s) = Some x /\
+            State2.i_node x =
+            Some (BinInt.Z.add (BinInt.Z.of_nat k) (BinNums.Zpos BinNums.xH)) /\
+            State2.i_server x <> None /\
+            State2.i_sst x = None /\ State2.i_send x = None))) /\
+       (forall (i : BinNums.Z) (x : State2.ind) (j : BinNums.Z),
+        Engine2.find_ind i (State2.inds s) = Some x ->
+        State2.i_node x = Some j ->
+        Journey2.slot_of cf j = true ->
+        State2.i_sst x <> None -> State2.i_server x <> None).
+Proof. exact Journey2t.Jrn2t_int_means. Qed.
+Print Assumptions Jrn2t_int_means.
+
+Theorem slotint_b_sound :
+  forall (cf : State2.config) (s : State2.sim),
+       Journey2.Idx s ->
+       Journey2t.slotint_b cf s = true -> Journey2t.SlotIntX cf None s.
+Proof. exact Journey2t.slotint_b_sound. Qed.
+Print Assumptions slotint_b_sound.
+
+Theorem jrn2t_b_sound :
+  forall (cf : State2.config) (an : BinNums.Z -> option BinNums.Z)
+         (s : State2.sim) (h : list State2.rec),
+       Journey2t.jrn2t_b cf an s h = true -> Journey2t.Jrn2t cf an s h.
+Proof. exact Journey2t.jrn2t_b_sound. Qed.
+Print Assumptions jrn2t_b_sound.
+
+Theorem jt_thm :
+  forall (ds : list State2.draws) (s : State2.sim) 
+         (h : list State2.rec) (an : BinNums.Z -> option BinNums.Z),
+       Journey2t.slots_only Journey2t.jt_cf Journey2t.jt_s7 ds ->
+       Journey2.run_hist Journey2t.jt_cf Journey2t.jt_s7 Journey2t.jt_h7
+         Journey2t.jt_an7 ds = State2.Ok (s, h, an) ->
+       Journey2t.Jrn2t Journey2t.jt_cf an s h.
+Proof. exact Journey2t.jt_thm. Qed.
+Print Assumptions jt_thm.
+
+Theorem jt_s7_not_Jrn2s :
+  ~
+       Journey2s.Jrn2s Journey2t.jt_cf Journey2t.jt_an7 Journey2t.jt_s7
+         Journey2t.jt_h7.
+Proof. exact Journey2t.jt_s7_not_Jrn2s. Qed.
+Print Assumptions jt_s7_not_Jrn2s.
